@@ -147,6 +147,10 @@ def run(chk):
     c, m, diffs, bad = vlib.pure_check(chk, ops, lambda o, l: (None, None, None) if o == "md5selftest" else oracle(o, l), rule,
                                        "Login.md5/loginCalcC vs md5.c/login.c")
     chk.cov["evaluations"] = chk.cov.get("evaluations", 0) + sn
+    # the login call sites live in the session machine: generated sessions (right, wrong and repeated DNS and raw logins, logins on sessions that
+    # are already logged in, after expiry, with other ids) through the real loop and the Lean server model
+    import srvcheck
+    srvcheck.model_only(chk, "C19", runs=24 if thorough else 8, nsteps=300)
     chk.cov["rule"] += ("; call sites: real server (h_srv) accepts exactly the documented DNS and raw (challenge+1) responses and answers raw mode with challenge-1, real client "
                         "(h_cli) sends them, for boundary/random challenges x passwords of 0..40 bytes incl. bytes >= 0x80")
 
